@@ -204,13 +204,16 @@ def gen_overlay(bd, engine):
     return path
 
 
-def build_engine(engine):
+def build_engine(engine, cover=False):
     bd = repo_build_dir()
     mod = gen_modfile(bd)
     ov = gen_overlay(bd, engine)
-    out = os.path.join(bd, engine + ".test")
+    out = os.path.join(bd, engine + (".cover.test" if cover else ".test"))
     e = ENGINES[engine]
-    cmd = [GO, "test", "-c", "-o", out, "-vet=off", "-modfile=" + mod, "-overlay=" + ov, "./" + e["pkg"] + "/"]
+    cmd = [GO, "test", "-c", "-o", out, "-vet=off", "-modfile=" + mod, "-overlay=" + ov]
+    if cover:
+        cmd += ["-cover", "-covermode=set", "-coverpkg=gitlab.com/yawning/obfs4.git/..."]
+    cmd += ["./" + e["pkg"] + "/"]
     t0 = time.time()
     r = run(cmd, cwd=REPO, env=GOENV, stdout=subprocess.PIPE, stderr=subprocess.STDOUT, text=True)
     if r.returncode != 0 or not os.path.exists(out):
@@ -380,6 +383,86 @@ def finish(prop, tier, seed, cfg, reports, trouble, wall, build_s):
     return 0
 
 
+def cover(props, budget):
+    """Reach measurement: statement coverage of the repository's packages under
+    the (unwoven) engines of the given properties.  Not a check; prints a table
+    and writes coverage/<prop>.txt with the blocks never executed."""
+    bd = repo_build_dir()
+    outdir = os.path.join(VERIF, "coverage")
+    os.makedirs(outdir, exist_ok=True)
+    merged = {}
+    for prop in props:
+        cfg = PROPS[prop]
+        engine = cfg["engine"]
+        if engine == "woven":
+            print("== coverage %s: skipped (runs only on woven sources; cover instrumentation and the weave do not compose)" % prop)
+            continue
+        binary, _ = build_engine(engine, cover=True)
+        wd = os.path.join(bd, "cover-%s" % prop)
+        shutil.rmtree(wd, ignore_errors=True)
+        os.makedirs(wd)
+        procs = []
+        for w in range(min(NPROC, 8)):
+            env = worker_env(prop, 1, "quick", VERIF_FROM=w, VERIF_STRIDE=8, VERIF_BUDGET_S=budget,
+                             VERIF_OUT=os.path.join(wd, "w%d.json" % w), VERIF_ENGINE=engine,
+                             VERIF_REPLAY_DIR=os.path.join(wd, "replays"))
+            os.makedirs(os.path.join(wd, "replays"), exist_ok=True)
+            prof = os.path.join(wd, "w%d.cov" % w)
+            procs.append((prof, subprocess.Popen([binary, "-test.run", "^TestVerif$", "-test.timeout", "0", "-test.cpu", "1",
+                                                  "-test.coverprofile", prof], cwd=wd, env=env,
+                                                 stdout=subprocess.DEVNULL, stderr=subprocess.DEVNULL)))
+        mine = {}
+        for prof, p in procs:
+            p.wait()
+            if not os.path.exists(prof):
+                continue
+            for line in open(prof):
+                if line.startswith("mode:"):
+                    continue
+                loc, nstmt, cnt = line.rsplit(" ", 2)
+                if "/zz_verif/" in loc or "zz_verif_" in loc:
+                    continue
+                k = (loc, int(nstmt))
+                mine[k] = max(mine.get(k, 0), int(cnt))
+                merged[k] = max(merged.get(k, 0), int(cnt))
+        shutil.rmtree(wd, ignore_errors=True)
+        _cover_report(prop, mine, outdir)
+    _cover_report("ALL", merged, outdir)
+    for e in set(PROPS[p]["engine"] for p in props):
+        try:
+            os.unlink(os.path.join(bd, e + ".cover.test"))
+        except OSError:
+            pass
+    return 0
+
+
+def _cover_report(name, blocks, outdir):
+    per = {}
+    for (loc, n), cnt in blocks.items():
+        f = loc.split(":")[0].replace("gitlab.com/yawning/obfs4.git/", "")
+        a = per.setdefault(f, [0, 0, []])
+        a[1] += n
+        if cnt:
+            a[0] += n
+        else:
+            a[2].append(loc.split(":")[1])
+    lines = []
+    for f in sorted(per):
+        hit, tot, miss = per[f]
+        if hit == 0:
+            continue
+        lines.append("%-55s %4d/%4d %5.1f%%" % (f, hit, tot, 100.0 * hit / tot))
+    with open(os.path.join(outdir, name + ".txt"), "w") as fh:
+        fh.write("# statement coverage of repository code under the harness (files with at least one statement reached)\n")
+        fh.write("\n".join(lines) + "\n\n# blocks never executed (file: start.col,end.col)\n")
+        for f in sorted(per):
+            hit, tot, miss = per[f]
+            if hit and miss:
+                fh.write("%s: %s\n" % (f, " ".join(sorted(miss, key=lambda x: int(x.split(".")[0])))))
+    print("== coverage %s" % name)
+    print("\n".join(lines))
+
+
 def replay_file(path, quiet=False):
     rf = json.load(open(path))
     prop = rf["property"]
@@ -545,6 +628,9 @@ def main():
     st.add_argument("--seeds", type=int, default=40)
     sub.add_parser("setup")
     sub.add_parser("manifest")
+    cv = sub.add_parser("cover")
+    cv.add_argument("props", nargs="*")
+    cv.add_argument("--budget", type=int, default=15)
     a = ap.parse_args()
     if a.cmd == "manifest":
         sys.exit(gen_manifest())
@@ -553,6 +639,8 @@ def main():
         sys.exit(check(a.prop, a.tier, seed))
     if a.cmd == "replay":
         sys.exit(replay_file(a.path))
+    if a.cmd == "cover":
+        sys.exit(cover(a.props or sorted(PROPS), a.budget))
     if a.cmd == "selftest":
         sys.exit(selftest(a.props or sorted(PROPS), a.seeds))
     if a.cmd == "setup":
